@@ -77,8 +77,170 @@ def snest(t):
     return sval(t)
 
 
+# ---------------------------------------------------------------- copies and conversions (C14)
+from mutwo import core_parameters as cp  # noqa: E402
+from mutwo import core_converters as cc  # noqa: E402
+
+
+def gbuild(x, ev, du, te):
+    """(l id dur tempo) | (s id tempo kids...) | (p id tempo kids...): equal ids = one object"""
+    i = int(x[1])
+    if i in ev:
+        return ev[i]
+    if x[0] == "l":
+        d, t = int(x[2]), int(x[3])
+        if d not in du:
+            du[d] = cp.DirectDuration(1 + (d % 4)) if d % 2 else cp.RatioDuration(1 + (d % 3))
+        o = ce.Chronon(du[d])
+        o.pitch = i
+        kids = None
+    else:
+        t = int(x[2])
+        kids = [gbuild(k, ev, du, te) for k in x[3:]]
+        o = (ce.Consecution if x[0] == "s" else ce.Concurrence)(kids, tag=f"t{i}")
+    if t not in te:
+        te[t] = [lambda: cp.DirectTempo(60 + t), lambda: cp.FlexTempo([[0, 60 + t], [2, 30], [3, 90, 1]]),
+                 lambda: cp.FlexTempo([[0, 60], [1, 60]])][t % 3]()
+    o.tempo = te[t]
+    ev[i] = o
+    return o
+
+
+def slots(e):
+    """identity slots in DFS order: event, duration object (leaf), tempo object"""
+    if isinstance(e, ce.Chronon):
+        return [e, e.duration, e.tempo]
+    out = [e, e.tempo]
+    for c in e:
+        out += slots(c)
+    return out
+
+
+def reach(e, acc=None):
+    """all mutable objects reachable from e (events, durations, tempi and what is inside trajectories)"""
+    if acc is None:
+        acc = {}
+    if id(e) in acc:
+        return acc
+    acc[id(e)] = e
+    if isinstance(e, ce.abc.Event):
+        t = e.tempo
+        if isinstance(e, ce.Chronon):
+            acc[id(e.duration)] = e.duration
+        if not (isinstance(e, ce.Envelope) and False):
+            if id(t) not in acc:
+                if isinstance(t, ce.Envelope):
+                    # a trajectory is itself an event tree; its own `tempo` attribute is not followed (infinite default chain)
+                    acc[id(t)] = t
+                    for p in t:
+                        acc[id(p)] = p
+                        acc[id(p.duration)] = p.duration
+                        pt = getattr(p, "tempo", None)
+                        if pt is not None:
+                            acc[id(pt)] = pt
+                else:
+                    acc[id(t)] = t
+        if not isinstance(e, ce.Chronon):
+            for c in e:
+                reach(c, acc)
+    return acc
+
+
+def deep_snap(e):
+    """everything observable: kind, tag, attributes, durations, tempo points, children"""
+    def tsnap(t):
+        if isinstance(t, cp.FlexTempo):
+            return ("flex", tuple((round(float(p.duration) * TICK), p.tempo.bpm, p.curve_shape) for p in t))
+        return ("direct", t.bpm)
+    if isinstance(e, ce.Chronon):
+        return ("L", round(float(e.duration) * TICK), type(e.duration).__name__, e.tag, getattr(e, "pitch", None), tsnap(e.tempo))
+    return (type(e).__name__, e.tag, tsnap(e.tempo), tuple(deep_snap(c) for c in e))
+
+
+def mutate_everything(e, salt):
+    """change durations, parameters, tags, tempo values and children of every node"""
+    if isinstance(e, ce.Chronon):
+        e.duration.add(salt)                 # in place on the duration object
+        e.pitch = (getattr(e, "pitch", 0) or 0) + 1000 + salt
+        e.tag = f"mut{salt}"
+        mutate_tempo(e.tempo, salt)
+        return
+    e.tag = f"mut{salt}"
+    mutate_tempo(e.tempo, salt)
+    for c in list(e):
+        mutate_everything(c, salt)
+    e.append(ce.Chronon(salt))
+    if len(e) > 1:
+        del e[0]
+
+
+def mutate_tempo(t, salt):
+    if isinstance(t, cp.FlexTempo):
+        for p in t:
+            p.duration.add(salt)
+            p.tempo.bpm = p.tempo.bpm + salt
+            p.curve_shape = (p.curve_shape or 0) + salt
+        t.append(ce.Chronon(salt))
+        t[-1].tempo = cp.DirectTempo(77)
+        t[-1].curve_shape = 0
+    else:
+        t.bpm = t.bpm + salt
+
+
+def run_copyop(case):
+    op = case[1]
+    src = gbuild(case[2], {}, {}, {})
+    before = deep_snap(src)
+    if op == "copy":
+        r = src.copy()
+    elif op == "dcopy":
+        r = src.destructive_copy()
+    elif op == "tconv":
+        r = cc.TempoConverter(cp.FlexTempo([[0, 60], [2, 30, 1], [4, 120]])).convert(src)
+    elif op == "metr":
+        r = cc.EventToMetrizedEvent().convert(src)
+    else:
+        raise ValueError(op)
+    flags = []
+    if deep_snap(src) != before:
+        flags.append("source-changed-by-the-operation")
+    sl = slots(r)
+    first = {}
+    pattern = []
+    for o in sl:
+        pattern.append(first.setdefault(id(o), len(first)))
+    a, b = reach(src), reach(r)
+    shared = sorted(type(a[i]).__name__ for i in a if i in b)
+    rs = deep_snap(r)
+    mutate_everything(r, 3)
+    if deep_snap(src) != before:
+        flags.append("a-change-of-the-result-is-visible-in-the-source")
+    src2 = gbuild(case[2], {}, {}, {})   # the mutation test the other way round on a fresh pair
+    if op == "copy":
+        r2 = src2.copy()
+    elif op == "dcopy":
+        r2 = src2.destructive_copy()
+    elif op == "tconv":
+        r2 = cc.TempoConverter(cp.FlexTempo([[0, 60], [2, 30, 1], [4, 120]])).convert(src2)
+    else:
+        r2 = cc.EventToMetrizedEvent().convert(src2)
+    rs2 = deep_snap(r2)
+    mutate_everything(src2, 5)
+    if deep_snap(r2) != rs2:
+        flags.append("a-change-of-the-source-is-visible-in-the-result")
+    out = ["ok", ["pattern"] + pattern, ["shared"] + shared]
+    if flags:
+        out.append(["flags"] + flags)
+    return out
+
+
 def run(case):
     k = case[0]
+    if k == "copyop":
+        try:
+            return run_copyop(case)
+        except Exception as e:  # noqa
+            return ["err", type(e).__name__]
     memo = {}
     t = build(case[1], memo)
     try:
